@@ -66,6 +66,9 @@ def strategy(tier):
 
 def run_case(case):
     prog = case["prog"]
+    if known.active("three-same-signal-sources") and lang.same_type_fanin(prog):
+        # open finding F-three-same (C01): the values on the anchors of such a program are not the program's
+        return {"discard": "excluded:F-three-same", "counters": {"excluded_by:F-three-same": 1}}
     text, res = common.compile_case(case)
     if not res.accepted:
         return common.reject_result(res)
@@ -144,9 +147,27 @@ def run_case(case):
 
     CMP_OPS = {"<", ">", "<=", ">=", "==", "!="}
 
+    def fold_ints(e):
+        """2 % 3 + in1 is 2 + in1 once the integer sub-expression is folded (which happens before CSE)."""
+        if isinstance(e, lang.Paren):
+            return fold_ints(e.e)
+        if isinstance(e, lang.Bin):
+            l, r = fold_ints(e.l), fold_ints(e.r)
+            if isinstance(l, lang.Num) and isinstance(r, lang.Num) and e.op in lang.ARITH_OPS:
+                try:
+                    from ..alu import arith as _arith
+
+                    return lang.Num(_arith(e.op, l.v, r.v))
+                except Exception:  # noqa: BLE001
+                    pass
+            return lang.Bin(e.op, l, r)
+        if isinstance(e, lang.Num):
+            return lang.Num(e.v)
+        return e
+
     def cse_norm(e):
         """`(a > 5) : 1` is the decider `a > 5` itself (output constant 1): one combinator for CSE."""
-        e = resolved(e)
+        e = fold_ints(resolved(e))
         while isinstance(e, lang.Paren):
             e = e.e
         for _ in range(20):  # an alias of a name denotes that name's defining expression
@@ -227,9 +248,12 @@ def run_case(case):
         # a function- or loop-local may carry the same name as a top-level one: when some candidates sit on the lines of
         # this name's declarations, the others belong to the local and are left to it
         group_lines = {decl_line[g] for g in group}
-        if any(e.desc["line"] in group_lines for e in labelled) and any(e.desc["line"] not in group_lines for e in labelled):
-            labelled = [e for e in labelled if e.desc["line"] in group_lines]
-            anchors = [e for e in anchors if e.desc["line"] in group_lines]
+        def elsewhere(e):
+            return e.desc["line"] is not None and e.desc["line"] not in group_lines
+
+        if any(e.desc["line"] in group_lines for e in labelled) and any(elsewhere(e) for e in labelled):
+            labelled = [e for e in labelled if not elsewhere(e)]
+            anchors = [e for e in anchors if not elsewhere(e)]
         producers = [e for e in labelled if e.desc["op"] != "output anchor"]
         want = env.get(name)
         if not labelled:
